@@ -141,3 +141,30 @@ contract(M, 'dfa_no_prefix', {'D': 'DFA'}, returns='NFA', requires=['dfa_wf(D)']
                                                   'all(implies((q, a) in delta, (q, a) in doneK) for q in atoms() for a in atoms())', 'epsilon not in D.Sigma']}},
          theories=['naming'], props=['C14', 'C19'],
          note='structural contract: transitions leaving accepting states are cut; the prefix-free reading is checked exactly by the bounded stand-in')
+
+# ---------------------------------------------------------------------------------------------- C20
+_ISO = 'isomorphic(D1, D2)'
+_H = 'hval(D1, D2, %s)'
+_ISO_INV = [
+    # soundness side: the matching built so far is a partial isomorphism, closed up to the pairs still in todo
+    'all(x in Reach(D1, D1.q0) and matching[x] in Reach(D2, D2.q0) and matching[x] in inverse and inverse[matching[x]] == x for x in matching)',
+    'all(inverse[y] in matching and matching[inverse[y]] == y for y in inverse)',
+    'all((x in D1.F) == (matching[x] in D2.F) for x in matching)',
+    'all(x in Reach(D1, D1.q0) and y in Reach(D2, D2.q0) and x in D1.Q and y in D2.Q for (x, y) in todo)',
+    'all((D1.delta[(x, a)] in matching and matching[D1.delta[(x, a)]] == D2.delta[(matching[x], a)]) or (D1.delta[(x, a)], D2.delta[(matching[x], a)]) in todo for x in matching for a in D1.Sigma)',
+    '(D1.q0 in matching and matching[D1.q0] == D2.q0) or (D1.q0, D2.q0) in todo',
+    # completeness side: under the hypothesis that an isomorphism exists, everything agrees with the chosen one
+    'implies(%s, all(y == %s for (x, y) in todo))' % (_ISO, _H % 'x'),
+    'implies(%s, all(matching[x] == %s for x in matching))' % (_ISO, _H % 'x')]
+contract(M, 'dfa_isomorphic1', {'D1': 'DFA', 'D2': 'DFA'}, returns='Bool',
+         requires=['dfa_wf(D1)', 'dfa_wf(D2)', 'D1.Sigma == D2.Sigma'],
+         ensures=['result == isomorphic(D1, D2)'],
+         asserts=['implies(result, all(x in matching for x in Reach(D1, D1.q0)))', 'implies(result, is_iso(matching, D1, D2))'],
+         types={'matching': 'Map[State,State]', 'inverse': 'Map[State,State]', 'todo': 'Set[(State,State)]'},
+         loops={1: {'invariant': _ISO_INV, 'exit_hints': ['Reach_least(D1, D1.q0, keys(matching))']},
+                2: {'ghost': 'doneS', 'invariant': _ISO_INV[:4] + _ISO_INV[6:] + [
+                    'q1 in matching and matching[q1] == q2 and q1 in Reach(D1, D1.q0) and q2 in Reach(D2, D2.q0) and q1 in D1.Q and q2 in D2.Q',
+                    'all((D1.delta[(x, a)] in matching and matching[D1.delta[(x, a)]] == D2.delta[(matching[x], a)]) or (D1.delta[(x, a)], D2.delta[(matching[x], a)]) in todo for x in matching for a in D1.Sigma if x != q1)',
+                    'all((D1.delta[(q1, a)] in matching and matching[D1.delta[(q1, a)]] == D2.delta[(q2, a)]) or (D1.delta[(q1, a)], D2.delta[(q2, a)]) in todo for a in doneS)',
+                    '(D1.q0 in matching and matching[D1.q0] == D2.q0) or (D1.q0, D2.q0) in todo']}},
+         theories=['dfa', 'iso'], props=['C20'], note='partial correctness; termination is checked by the bounded stand-in')
